@@ -159,7 +159,7 @@ theorem decWitness (H : Bytes → Bytes) (c : Commit) : NoPanic (Codec.decWitnes
   | veto sc suf vote => exact bind readVarstrList fun _ => pure _
 
 theorem decInput (H : Bytes → Bytes) : NoPanic (Codec.decInput H) :=
-  bind readVarint63 fun _ =>
+  bind readVarint63 fun _ => ite (fail _) <|
     bind (readExt (ite (pure _) (bind decCommit fun _ => pure _))) fun p =>
       bind (readExt (by
         cases p.1 with
@@ -194,7 +194,7 @@ theorem decSupLink : NoPanic Codec.decSupLink :=
   bind readVarint63 fun _ => bind readHash fun _ => bind (decSigs _) fun _ => pure _
 
 theorem decSupLinks : NoPanic Codec.decSupLinks :=
-  bind readVarint31 fun _ => bind (tick _) fun _ => readN _ decSupLink _
+  bind readVarint31 fun _ => readN _ decSupLink _
 
 theorem decHeader : NoPanic Codec.decHeader :=
   bind readByte fun _ => ite (pure _) (ite (fail _)
@@ -235,11 +235,16 @@ theorem readExt_ok_inv {α} {f : Dec α} {bs : Bytes} {p : α × Bytes} {r : Byt
     | err e => cases h2
     | panic => cases h2
 
-/-- a decoded input has no typed input exactly when its asset version is not 1 -/
-theorem decInput_typed_none_iff (H : Bytes → Bytes) {bs : Bytes} {i : TxInput} {r : Bytes}
-    (h : (decInput H bs).out = .ok i r) : i.typed = none ↔ i.assetVersion ≠ 1 := by
+/-- a decoded input always carries a typed input and asset version 1 (an input of another
+    asset version is rejected by `TxInput.readFrom`) -/
+theorem decInput_typed (H : Bytes → Bytes) {bs : Bytes} {i : TxInput} {r : Bytes}
+    (h : (decInput H bs).out = .ok i r) : i.typed.isSome = true ∧ i.assetVersion = 1 := by
   unfold decInput at h
   obtain ⟨av, r1, _, h1⟩ := bind_ok_inv h
+  by_cases hav : av ≠ 1
+  · rw [if_pos hav] at h1; cases h1
+  rw [if_neg hav] at h1
+  have hav1 : av = 1 := by omega
   obtain ⟨p, r2, hp, h2⟩ := bind_ok_inv h1
   obtain ⟨q, r3, hq, h3⟩ := bind_ok_inv h2
   simp only [pure_out, Out.ok.injEq] at h3
@@ -248,26 +253,109 @@ theorem decInput_typed_none_iff (H : Bytes → Bytes) {bs : Bytes} {i : TxInput}
   simp only
   obtain ⟨s1, hs1⟩ := readExt_ok_inv hp
   obtain ⟨s2, hs2⟩ := readExt_ok_inv hq
-  by_cases hav : av = 1
-  · subst hav
-    rw [if_neg (by simp)] at hs1
-    obtain ⟨c, r4, _, hc⟩ := bind_ok_inv hs1
-    simp only [pure_out, Out.ok.injEq] at hc
-    obtain ⟨hc, _⟩ := hc
-    rw [← hc] at hs2
-    simp only at hs2
-    obtain ⟨t, r5, _, ht⟩ := bind_ok_inv hs2
-    simp only [pure_out, Out.ok.injEq] at ht
-    obtain ⟨ht, _⟩ := ht
-    rw [← ht]
-    simp
-  · rw [if_pos hav] at hs1
-    simp only [pure_out, Out.ok.injEq] at hs1
-    obtain ⟨hc, _⟩ := hs1
-    rw [← hc] at hs2
-    simp only [pure_out, Out.ok.injEq] at hs2
-    obtain ⟨ht, _⟩ := hs2
-    rw [← ht]
-    simp [hav]
+  rw [if_neg hav] at hs1
+  obtain ⟨c, r4, _, hc⟩ := bind_ok_inv hs1
+  simp only [pure_out, Out.ok.injEq] at hc
+  obtain ⟨hc, _⟩ := hc
+  rw [← hc] at hs2
+  simp only at hs2
+  obtain ⟨t, r5, _, ht⟩ := bind_ok_inv hs2
+  simp only [pure_out, Out.ok.injEq] at ht
+  obtain ⟨ht, _⟩ := ht
+  rw [← ht]
+  exact ⟨rfl, hav1⟩
+
+/-- every element a successful counted loop returns satisfies what each element decoder guarantees -/
+theorem readN_forall {α} (a : Nat) {f : Dec α} {P : α → Prop} (hf : ∀ bs x r, (f bs).out = .ok x r → P x) :
+    ∀ (n : Nat) (bs : Bytes) (xs : List α) (r : Bytes), (readN a f n bs).out = .ok xs r → ∀ x ∈ xs, P x := by
+  intro n
+  induction n with
+  | zero =>
+    intro bs xs r h
+    simp only [readN, pure_out, Out.ok.injEq] at h
+    rw [← h.1]; simp
+  | succ n ih =>
+    intro bs xs r h
+    simp only [readN] at h
+    obtain ⟨x, r1, h1, h2⟩ := bind_ok_inv h
+    obtain ⟨l, r2, h3, h4⟩ := bind_ok_inv h2
+    simp only [pure_out, Out.ok.injEq] at h4
+    rw [charge_out] at h1
+    rw [← h4.1]
+    intro y hy
+    rcases List.mem_cons.mp hy with rfl | hy
+    · exact hf bs _ r1 h1
+    · exact ih r1 l r2 h3 y hy
+
+/-- every input of a decoded transaction is typed: `MapTx` cannot hit its panic branch -/
+theorem decTx_allTyped (H : Bytes → Bytes) {bs : Bytes} {tx : TxData} {r : Bytes} (h : (decTx H bs).out = .ok tx r) :
+    ∀ i ∈ tx.inputs, i.typed.isSome = true ∧ i.assetVersion = 1 := by
+  unfold decTx at h
+  obtain ⟨_, r0, _, h⟩ := bind_ok_inv h
+  obtain ⟨f, r1, _, h⟩ := bind_ok_inv h
+  by_cases hf : f ≠ 7
+  · rw [if_pos hf] at h; cases h
+  rw [if_neg hf] at h
+  obtain ⟨_, r2, _, h⟩ := bind_ok_inv h
+  obtain ⟨_, r3, _, h⟩ := bind_ok_inv h
+  obtain ⟨n, r4, _, h⟩ := bind_ok_inv h
+  obtain ⟨ins, r5, h5, h⟩ := bind_ok_inv h
+  obtain ⟨m, r6, _, h⟩ := bind_ok_inv h
+  obtain ⟨outs, r7, _, h⟩ := bind_ok_inv h
+  obtain ⟨_, r8, _, h⟩ := bind_ok_inv h
+  simp only [pure_out, Out.ok.injEq] at h
+  obtain ⟨e1, _⟩ := h
+  subst e1
+  exact readN_forall _ (fun bs x r hx => decInput_typed H hx) n r4 ins r5 h5
+
+theorem mapTxPanics_decoded (H : Bytes → Bytes) {bs : Bytes} {tx : TxData} {r : Bytes} (h : (decTx H bs).out = .ok tx r) :
+    mapTxPanics tx = false := by
+  unfold mapTxPanics
+  simp only [List.any_eq_false]
+  intro i hi
+  have := (decTx_allTyped H h i hi).1
+  cases ht : i.typed with
+  | none => rw [ht] at this; simp at this
+  | some t => simp
+
+namespace NoPanic
+
+/-- `data.readFrom(r)` followed by `NewTx(data)`: the mapping step cannot panic on a decoded value -/
+theorem decBlockTx (H : Bytes → Bytes) : NoPanic (Codec.decBlockTx H) := by
+  intro bs h
+  unfold Codec.decBlockTx Codec.decBlockTxWith at h
+  rcases bind_panic_inv h with h1 | ⟨tx, r1, h1, h2⟩
+  · exact NoPanic.decTx H bs h1
+  · rcases bind_panic_inv h2 with h3 | ⟨_, r2, _, h4⟩
+    · unfold mapTxD at h3
+      rw [mapTxPanics_decoded H h1] at h3
+      cases h3
+    · cases h4
+
+theorem decBlock (H : Bytes → Bytes) : NoPanic (Codec.decBlock H) :=
+  bind decHeader fun _ => ite (pure _)
+    (bind readVarint31 fun _ => bind (readN _ (decBlockTx H) _) fun _ => pure _)
+
+/-- `Tx.UnmarshalText`'s decoder: `TxData.readFrom`, trailing check, `MapTx` -/
+theorem txMapped (H : Bytes → Bytes) :
+    NoPanic (do let tx ← Codec.decTx H; let tx ← Codec.noTrailing tx; mapTxD tx; Pure.pure tx : Dec TxData) := by
+  intro bs h
+  rcases bind_panic_inv h with h1 | ⟨tx, r1, h1, h2⟩
+  · exact NoPanic.decTx H bs h1
+  · rcases bind_panic_inv h2 with h3 | ⟨tx', r2, h3, h4⟩
+    · exact NoPanic.noTrailing tx r1 h3
+    · have htx : tx' = tx := by
+        unfold Codec.noTrailing at h3
+        split at h3
+        · cases h3
+        · simp only [Out.ok.injEq] at h3; exact h3.1.symm
+      subst htx
+      rcases bind_panic_inv h4 with h5 | ⟨_, r3, _, h6⟩
+      · unfold mapTxD at h5
+        rw [mapTxPanics_decoded H h1] at h5
+        cases h5
+      · cases h6
+
+end NoPanic
 
 end BytomModel.Lemmas.Codec
